@@ -118,5 +118,9 @@ LEVEL_NOTE = ("The request-level theorem (replay_generate) is proved at full str
               "is proved for the map-backed sections (listeners, clusters, http/https frontends) and holds by the same "
               "lemmas for any order of the buckets. The byte encodings (serde_json, prost, the \\n\\0 framing and the "
               "master's load_state buffer loop) are exercised on every case, not modelled: the three encoded paths are "
-              "tied to the theorem by correspondence only. The process hand-over of the upgrade is C10.")
+              "tied to the theorem by correspondence only (full state equality in the release profile; the JSON round trip "
+              "of the whole state is compared exactly). remove_backend / remove_tcp_frontend / remove_udp_frontend / "
+              "remove_certificate leave empty buckets that generate_requests does not reproduce: `norm` drops them on both "
+              "sides (exact equality is still computed by the driver); the internal debug assertion that tripped on them "
+              "was relaxed upstream-style (fix c4e7f59). The process hand-over of the upgrade is C10.")
 TECHNIQUE = "Rocq/Coq proof over an executable Gallina model (std++ gmap) + differential correspondence (extracted OCaml vs real crate, four replay paths)"
